@@ -348,14 +348,16 @@ func (c *Cluster) StopFollower(n *Node) {
 	atomic.StoreInt32(&n.up, 0)
 	atomic.AddInt64(&n.gen, 1)
 	close(n.stopReg)
-	n.Z.Close()
+	closeBounded(n.Z, 20*time.Second)
 }
 
 // RestartLeader closes and reopens a leader on its directory.
 func (c *Cluster) RestartLeader(n *Node) error {
 	atomic.StoreInt32(&n.up, 0)
 	atomic.AddInt64(&n.gen, 1)
-	n.Z.Close()
+	if !closeBounded(n.Z, 20*time.Second) {
+		return fmt.Errorf("%w: leader did not close", ErrInconclusive)
+	}
 	if err := c.startLeader(n); err != nil {
 		return err
 	}
@@ -378,7 +380,7 @@ func (c *Cluster) Close() {
 	for _, l := range c.Leaders {
 		if atomic.LoadInt32(&l.up) == 1 {
 			atomic.StoreInt32(&l.up, 0)
-			l.Z.Close()
+			closeBounded(l.Z, 5*time.Second)
 		}
 	}
 }
@@ -642,5 +644,22 @@ func (c *Cluster) FreezeFollower(f *Node) (map[int]bool, error) {
 func (c *Cluster) Thaw(f *Node, prev map[int]bool) {
 	for id, cut := range prev {
 		c.Cut(f, id, cut)
+	}
+}
+
+// closeBounded closes a database but does not wait for it for ever: DB.Close
+// waits for all background tasks and can block when one of them is stuck
+// (which is exactly the situation some checks have to report, not hang on).
+func closeBounded(z *zenodb.DB, wait time.Duration) bool {
+	done := make(chan struct{})
+	go func() {
+		z.Close()
+		close(done)
+	}()
+	select {
+	case <-done:
+		return true
+	case <-time.After(wait):
+		return false
 	}
 }
